@@ -14,6 +14,7 @@ CONSTANTS
   BkRechecksLock = TRUE
   AllowConcurrent = FALSE
   GcStopsOnUnreadableHunk = FALSE
+  GcBandsBeforeBlocks = TRUE
 INVARIANTS Inv_Format Inv_NoDangling Inv_SnapRestores Inv_RecordedBytes Inv_CompleteSuccess Inv_SkippedReported Inv_GcExact
 PROPERTIES Prop_WriteOnce
 CHECK_DEADLOCK FALSE
